@@ -102,9 +102,9 @@ func decodeRoots(c *Ctx) (decodes, matchers []*ssa.Function) {
 			}
 			if fn.Name() == "ProtocolMatch" && fn.Signature.Recv() != nil {
 				for _, in := range instrsWhere(fn, isReturn) {
-					if f, ok := in.(*ssa.Return).Results[0].(*ssa.Function); ok {
+					if f, ok := unspill(in.(*ssa.Return), 0).(*ssa.Function); ok {
 						matchers = append(matchers, f)
-					} else if ct, ok := in.(*ssa.Return).Results[0].(*ssa.ChangeType); ok {
+					} else if ct, ok := unspill(in.(*ssa.Return), 0).(*ssa.ChangeType); ok {
 						if f, ok := ct.X.(*ssa.Function); ok {
 							matchers = append(matchers, f)
 						}
@@ -394,7 +394,7 @@ func isNilNilReturn(in ssa.Instruction) bool {
 	if !ok || len(ret.Results) != 2 {
 		return false
 	}
-	if isNilConst(ret.Results[0]) && isNilConst(ret.Results[1]) {
+	if isNilConst(unspill(ret, 0)) && isNilConst(unspill(ret, 1)) {
 		return true
 	}
 	// results spilled to locals (function with defer): look at the stores preceding the return in its block
@@ -720,7 +720,7 @@ func (br *boundsRun) runB3(matchers []*ssa.Function) {
 			ret := in.(*ssa.Return)
 			ord++
 			key := fmt.Sprintf("%s:return#%d", fk, ord)
-			k, isC := constInt(ret.Results[0])
+			k, isC := constInt(unspill(ret, 0))
 			if !isC {
 				// phi of constants etc.: treat as decided result
 				k = -1
@@ -986,7 +986,7 @@ func runC07HTTPMatcher(c *Ctx) {
 	nfail := 0
 	for _, in := range instrsWhere(fn, isReturn) {
 		ret := in.(*ssa.Return)
-		u, ok := ret.Results[0].(*ssa.UnOp)
+		u, ok := unspill(ret, 0).(*ssa.UnOp)
 		if !ok {
 			continue
 		}
